@@ -41,6 +41,9 @@ func (w *World) applyStatUpdate(ctx sdk.Context, u statUpdate) error {
 		return err
 	}
 	ta.SetDestinationAmount(math.NewInt(u.Amt - u.Amt/10))
+	if i := strings.Index(u.Fwd, ">"); i >= 0 {
+		ta.SetDestinationDenom(u.Fwd[i+1:])
+	}
 	var f *core.Forwarding
 	var d uint32
 	switch {
@@ -68,6 +71,9 @@ func c13UpdateMenu() []statUpdate {
 		{4, "noble", "cctp:1", "uusdc", 1300}, {1, "channel-0", "cctp:1", "uusdc", 11}, // last one updates an existing entry
 		// denominations on ONE route of which one is a prefix of the other (the denom is the last, unterminated key part)
 		{1, "channel-0", "cctp:1", "uusdcx", 21}, {1, "channel-0", "internal", "uusd", 22},
+		// an action changed the denomination ("route>denomination left by the last action"): two entries on the route, one with
+		// nothing outgoing, one with nothing incoming — both non-zero, both must be found by the direct lookup (seed C13i)
+		{1, "channel-0", "internal>uother", "uusdc", 40}, {2, "1", "cctp:1>uusdc", "ueure", 70},
 	}
 }
 
@@ -160,7 +166,12 @@ func checkC13(tier string) *Report {
 			}
 			route := fmt.Sprintf("%d:%s|%s", int32(u.SrcProto), u.SrcCP, dst)
 			in[route+"|"+u.Denom] += u.Amt
-			out[route+"|"+u.Denom] += u.Amt - u.Amt/10
+			if i := strings.Index(u.Fwd, ">"); i >= 0 && u.Fwd[i+1:] != u.Denom {
+				in[route+"|"+u.Fwd[i+1:]] += 0
+				out[route+"|"+u.Fwd[i+1:]] += u.Amt - u.Amt/10
+			} else {
+				out[route+"|"+u.Denom] += u.Amt - u.Amt/10
+			}
 			cnt[route]++
 		}
 		var want []string
